@@ -293,6 +293,17 @@ class PyRaise(Exception):
         self.exc = exc
 
 
+class NpScalar:
+    """a numpy scalar (e.g. what h5py returns for an attribute): behaves like its value in
+    arithmetic / truth tests / ==, but is never *identical* to True/False/None."""
+
+    def __init__(self, val):
+        self.val = val
+
+    def __repr__(self):
+        return 'NpScalar(%s)' % (self.val,)
+
+
 class Opaque:
     """marker for values the interpreter refuses to look into (poison)."""
 
